@@ -301,6 +301,56 @@ func HarnessC12ReadOnly() {
 	verifReach("end")
 }
 
+// HarnessC12Arrays: arrays of up to 4 elements (strings in every relative order, numbers, nested
+// values, duplicates) under uniqueItems / enum / items / length keywords, through the schema
+// validator, the items-level validators and the exported helpers: no element is moved or replaced.
+func HarnessC12Arrays() {
+	strPool := []interface{}{"pear", "apple", "fig"}
+	mixPool := []interface{}{"pear", 2.0, nil, []interface{}{"b", "a"}, map[string]interface{}{"k": "v"}, 1.0, "apple"}
+	var arr []interface{}
+	if verifBool() { // strings only, in every relative order and with duplicates
+		n := verifChoose(5)
+		arr = make([]interface{}, 0, n)
+		for i := 0; i < n; i++ {
+			arr = append(arr, strPool[verifChoose(3)])
+		}
+	} else { // values of every kind
+		n := verifChoose(4 + verifTier())
+		arr = make([]interface{}, 0, n)
+		for i := 0; i < n; i++ {
+			arr = append(arr, mixPool[verifChoose(5+2*verifTier())])
+		}
+	}
+	s := spec.Schema{}
+	s.UniqueItems = verifBool()
+	switch verifChoose(4) {
+	case 1:
+		l := strSchema("", 5)
+		s.Items = &spec.SchemaOrArray{Schema: &l}
+	case 2:
+		s.Enum = []interface{}{[]interface{}{"apple", "fig", "pear"}, []interface{}{"pear", "apple", "fig"}}
+	case 3:
+		s.MinItems, s.MaxItems = ptrI(1), ptrI(3)
+	}
+	reg := &verifRegistry{}
+	verifFreeze(arr, "instance")
+	verifFreeze(&s, "schema")
+	_ = AgainstSchema(&s, arr, reg)
+	_ = NewSchemaValidator(&s, nil, "", reg, SwaggerSchema(true)).Validate(arr)
+	_ = UniqueItems("p", "body", arr)
+	_ = Enum("p", "body", arr, s.Enum)
+	_ = EnumCase("p", "body", arr, s.Enum, false)
+	// the same array as the value of a simple array parameter / header / items
+	p := spec.QueryParam("q").CollectionOf(spec.NewItems().Typed("string", ""), "csv")
+	p.UniqueItems = s.UniqueItems
+	_ = NewParamValidator(p, reg).Validate(arr)
+	h := spec.ResponseHeader().CollectionOf(spec.NewItems().Typed("string", ""), "csv")
+	h.UniqueItems = s.UniqueItems
+	_ = NewHeaderValidator("X", h, reg).Validate(arr)
+	verifUnfreeze()
+	verifReach("end")
+}
+
 // HarnessC17Composite: nil <=> valid; otherwise a CompositeError, code 422, whose messages are exactly
 // the result's messages, without duplicates; every field-level error is named by an extension of the root path.
 func HarnessC17Composite() {
